@@ -40,7 +40,7 @@ STYLES = ['google', 'freeform', 'auto']
 def required_cells(tier):
     return ['style:google', 'style:freeform', 'style:auto', 'feature:async', 'feature:nested-func',
             'feature:class-in-func', 'feature:method:setter', 'feature:method:deleter', 'feature:method:nestedcls',
-            'feature:top:main', 'feature:module-docstring', 'feature:top:adeco', 'feature:top:ctxmgr', 'feature:top:subclass', 'feature:top:handler', 'feature:top:matcharm', 'feature:top:tryelse', 'feature:top:forbody', 'feature:method:setter_stacked', 'feature:method:getter_again', 'feature:top:notmain', 'feature:method:ctxmethod', 'tree:missing-init', 'tree:ok', 'history:file-edited-then-collected-again',
+            'feature:top:main', 'feature:module-docstring', 'feature:top:adeco', 'feature:top:ctxmgr', 'feature:top:subclass', 'feature:top:handler', 'feature:top:matcharm', 'feature:top:tryelse', 'feature:top:forbody', 'feature:method:setter_stacked', 'feature:method:getter_again', 'feature:top:notmain', 'feature:method:ctxmethod', 'tree:missing-init', 'tree:ok', 'history:file-edited-then-collected-again', 'tree:by-name:not-imported', 'tree:by-name:imported',
             'cli-list', 'calldefs']
 
 
@@ -198,6 +198,36 @@ def check_tree(ctx, idx, seed):
                     all_markers += len(gm.MARK_RE.findall(open(os.path.join(dp, f)).read())) // 2
         ctx.cell('tree:missing-init' if all_markers > len(exp) else 'tree:ok')
         ctx.nontrivial(repr(listing))
+        # ---- the same package named by its module NAME (its parent directory on sys.path), before and after the
+        # package has been imported into this process
+        pkgname = os.path.basename(pkg)
+        saved_path = list(sys.path)
+        sys.path.insert(0, root)
+        try:
+            import importlib
+            for when in ('not-imported', 'imported'):
+                if when == 'imported':
+                    try:
+                        importlib.import_module(pkgname)
+                    except Exception:
+                        break
+                ctx.evaluation()
+                try:
+                    exs, wl = collect(pkgname, 'google')
+                except Exception as ex:
+                    ctx.violation('collect-raised', 'parse_doctestables(%r) by module name raised %r; files %r' % (pkgname, ex, listing), case)
+                    break
+                got = [m for e in exs for m in sorted(set(gm.MARK_RE.findall(e.docsrc)))]
+                if sorted(got) != sorted(exp):
+                    ctx.violation('package-walk', 'the package named by its module name (%s in this process) yields %r beyond / '
+                                  'misses %r of the reachable modules; files %r' % (
+                                      when, sorted(set(got) - exp), sorted(exp - set(got)), listing), dict(case, by_name=when))
+                    break
+                ctx.cell('tree:by-name:' + when)
+        finally:
+            sys.path[:] = saved_path
+            for m in [m for m in sys.modules if m == pkgname or m.startswith(pkgname + '.')]:
+                del sys.modules[m]
     finally:
         shutil.rmtree(root, ignore_errors=True)
 
